@@ -130,6 +130,39 @@ def readAddr (a : Bytes) : Bytes × Bytes × Bytes :=
   let scheme := if !sr.1.isEmpty then sr.1 else if port == b!"80" then b!"http" else if port == b!"443" then b!"https" else sr.1
   (scheme, hp.1, port)
 
+/-! ## which site an address text denotes (for the duplicate check of InspectServerBlocks) -/
+
+/-- the path written in a site address (lower-cased, as paths are case-insensitive by default); "" if none -/
+def readPath (a : Bytes) : Bytes :=
+  let rest := (splitScheme (toLower a)).2
+  match indexByte rest 47 with
+  | some i => rest.drop i
+  | none => []
+
+/-- The site an address text denotes: scheme (http unless https is written or implied by port 443), host (IP literals in
+canonical form), port (the default port 2015 if none is written or implied), path. -/
+def denotes (a : Bytes) : Bytes × Bytes × Bytes × Bytes :=
+  let (s, h, p) := readAddr a
+  let h := canonHost h
+  let p := if p.isEmpty then b!"2015" else p
+  let s := if s.isEmpty then (if p == b!"443" then b!"https" else b!"http") else s
+  (s, h, p, readPath a)
+
+/-- spellings for which the "rejected ⇒ really the same site" direction is claimed: scheme none/http/https, host a name
+or an IPv4 literal (for bracketed IPv6 literals Address.Key drops the port, see docs) -/
+def spellingInScope (a : Bytes) : Bool :=
+  let raw := (splitScheme (toLower a)).1
+  (raw.isEmpty || raw == b!"http" || raw == b!"https") && !hasByte (readAddr a).2.1 58
+
+/-- verdict on what InspectServerBlocks did with a list of address spellings: `accepted` = no duplicate error -/
+def inspectVerdict (spellings : List Bytes) (accepted : Bool) : String :=
+  let ds := spellings.map denotes
+  if accepted then
+    (if ds.Nodup then "ok" else "bad:duplicate-accepted:two spellings of the same site were both accepted")
+  else
+    (if !ds.Nodup || !spellings.all spellingInScope then "ok"
+     else "bad:distinct-rejected:distinct sites were rejected as duplicates")
+
 /-! ## the site-set property -/
 
 /-- what the judge knows about a declared site: from the INPUT the address text, bind and tls variant;
@@ -160,12 +193,6 @@ def portSuffixOK (target sitePort : Bytes) : Bool :=
 def obsWantsRedirect (o : Observed) : Bool := o.fEnabled && !o.declared.noRedirect
 
 def hasPlainSite (os : List Observed) (h : Bytes) : Bool := os.any fun o => o.fHost == h && o.fPort == b!"80"
-
-/-- The one situation in which the code is known to leave an HTTPS site without redirect site (finding
-C15-redirect-deferred-to-443-sibling): when redirects are made, `o` is not on the HTTPS port while another site of
-its host is, and that site produces no redirect itself (TLS off or no_redirect). -/
-def deferredTo443 (os : List Observed) (o : Observed) : Bool :=
-  o.ePort != b!"443" && os.any fun p => p.fHost == o.fHost && p.ePort == b!"443" && !obsWantsRedirect p
 
 /-! the single violations, as tests on one observed site / one observed redirect site -/
 
@@ -201,11 +228,8 @@ def sitesVerdict (os : List Observed) (rs : List ObservedRedirect) : String :=
     then "bad:redirect-target-not-https-site:a synthesised redirect does not point at an HTTPS site of its host (right port, TLS on, no_redirect off)"
   else if !(rs.map (·.fHost)).Nodup then "bad:duplicate-redirect-site:"
   -- P4 every HTTPS site (no_redirect off) without a plain site of its host on the HTTP port is covered by a redirect site
-  else match os.find? (offCover os rs) with
-    | some o =>
-      if deferredTo443 os o then "bad:redirect-missing-443-sibling:an HTTPS site has no redirect site because a site of the same host on port 443 (which produces no redirect itself) is preferred"
-      else "bad:redirect-missing:an HTTPS site without plaintext site on the HTTP port has no redirect site"
-    | none => "ok"
+  else if os.any (offCover os rs) then "bad:redirect-missing:an HTTPS site without plaintext site on the HTTP port has no redirect site"
+  else "ok"
 
 /-- what the model pipeline shows of a declared site `d` (the same fields the stream c15.sites reports) -/
 def observeSite (d : Site) : Observed :=
